@@ -305,6 +305,15 @@ func StartNode(name string) (gen.Node, error) {
 	return node.Start(gen.Atom(name), opt, gen.Version{})
 }
 
+// StartNodeLogging starts a node whose log level lets Debug messages reach process loggers (no default logger).
+func StartNodeLogging(name string) (gen.Node, error) {
+	var opt gen.NodeOptions
+	opt.Log.DefaultLogger.Disable = true
+	opt.Log.Level = gen.LogLevelDebug
+	opt.Network.Mode = gen.NetworkModeDisabled
+	return node.Start(gen.Atom(name), opt, gen.Version{})
+}
+
 func stateName(s gen.ProcessState) string {
 	switch s {
 	case gen.ProcessStateInit:
